@@ -165,8 +165,7 @@ def runSyn (j : Json) : Except String Json := do
   let errs := match noteError env pre msg callable with
     | .ok l => l
     | .error _ => pre
-  -- spec B, where its hypotheses hold: no element *item* shadows (KF-C16-a), no list-like
-  -- state (D-C16-1), no ungettext in play
+  -- spec B, where its hypotheses hold: no element *item* shadows (KF-C16-a), no ungettext in play
   let src : Spec.Sources := {
     kwargs := lookupFn kwargs, stateItems := lookupFn st.items, stateAttrs := lookupFn st.attrs,
     validatorAttrs := lookupFn vattrs, elementAttrs := lookupFn elemT.attrs }
@@ -178,7 +177,7 @@ def runSyn (j : Json) : Except String Json := do
   let nFound := match findTransformer env.nState env.nAnc env.nBuiltin with
     | .ok (some _) => true
     | _ => false
-  let inScope := st.kind != "seq" && elemT.items.isEmpty &&
+  let inScope := elemT.items.isEmpty &&
     (match msg with | .plain _ => true | .plural _ _ _ => !nFound)
   let specRes : Option Str := match msg with
     | .plain s => Spec.expandPlain specU src s
@@ -187,7 +186,6 @@ def runSyn (j : Json) : Except String Json := do
     if !inScope then true
     else match res, specRes with
       | .ok a, some b => a == b
-      | .error .valueError, _ => true      -- count text that is not a number: outside B
       | .error _, none => true
       | _, _ => false
   return obj [("raise", raiseJson res),
